@@ -22,8 +22,13 @@ pub enum FT {
     I16,
     I32x2,
     U8,
+    /// 64-bit integers do not fit the f64 the Linear interpolator works in: Floor only (the source frame itself must come out)
+    I64,
+    U64x2,
 }
 pub const FTS: [FT; 5] = [FT::F64, FT::F32x2, FT::I16, FT::I32x2, FT::U8];
+/// frame types for which only the Floor interpolator is exact
+pub const FTS_FLOOR_ONLY: [FT; 2] = [FT::I64, FT::U64x2];
 
 #[derive(Clone, Copy, Debug, PartialEq, Eq, Serialize, Deserialize)]
 pub enum Interp {
@@ -128,13 +133,28 @@ impl RF for i16 {
     const FT: FT = FT::I16;
     fn at(i: u64) -> Self {
         // odd values: a blend of two equal frames computed as l*(1-x) + l*x rather than l + 0*x rounds below l
-        (a(i) * 16 + 3) as i16
+        // amplitudes up to +-32035: the swing between two neighbouring frames may exceed half of full scale
+        (a(i) * 32 + 3) as i16
     }
 }
 impl RF for [i32; 2] {
     const FT: FT = FT::I32x2;
     fn at(i: u64) -> Self {
-        [((a(i) as i32) << 18) + 1_000_003, -((a(plateau(i) + 1) as i32) << 17) - 7]
+        // channel 0 swings by more than half of full scale between neighbours
+        [((a(i) as i32) << 20) + 1_000_003, -((a(plateau(i) + 1) as i32) << 17) - 7]
+    }
+}
+impl RF for i64 {
+    const FT: FT = FT::I64;
+    fn at(i: u64) -> Self {
+        // more than 53 significant bits, odd
+        (a(i) << 52) + ((plateau(i).wrapping_mul(2654435761) % (1 << 40)) as i64) * 2 + 1
+    }
+}
+impl RF for [u64; 2] {
+    const FT: FT = FT::U64x2;
+    fn at(i: u64) -> Self {
+        [(1u64 << 63).wrapping_add(<i64 as RF>::at(i) as u64), plateau(i) % 5]
     }
 }
 impl RF for u8 {
@@ -537,6 +557,9 @@ pub fn check(c: &Case, st: &mut Stats) -> CheckResult {
         FT::I16 => run_typed::<i16>(c, st),
         FT::I32x2 => run_typed::<[i32; 2]>(c, st),
         FT::U8 => run_typed::<u8>(c, st),
+        FT::I64 | FT::U64x2 if c.interp == Interp::Linear => Err("bad case: 64-bit integer frames are only driven through the Floor interpolator".into()),
+        FT::I64 => run_typed::<i64>(c, st),
+        FT::U64x2 => run_typed::<[u64; 2]>(c, st),
     }
 }
 
@@ -566,12 +589,12 @@ fn general_param() -> BoxedStrategy<f64> {
 }
 
 pub fn case_strategy(max_out: u64) -> impl Strategy<Value = Case> {
-    (0usize..5, any::<bool>(), prop_oneof![3 => (1u64..60).prop_map(Some), 1 => Just(None)], 0usize..9, any::<bool>(), any::<bool>(), proptest::sample::select(HZ_BASES.to_vec())).prop_flat_map(move |(f, lin, src_len, ci, exact, drain, hz_base)| {
+    (0usize..7, any::<bool>(), prop_oneof![3 => (1u64..60).prop_map(Some), 1 => Just(None)], 0usize..9, any::<bool>(), any::<bool>(), proptest::sample::select(HZ_BASES.to_vec())).prop_flat_map(move |(f, lin, src_len, ci, exact, drain, hz_base)| {
         let ctor = CTORS[ci];
         let p = if exact { dyadic_param(ctor) } else { general_param() };
         (proptest::collection::vec(p, 1..6), 1u64..max_out).prop_map(move |(ps, outputs)| Case {
-            ft: FTS[f],
-            interp: if lin { Interp::Linear } else { Interp::Floor },
+            ft: if f < 5 { FTS[f] } else { FTS_FLOOR_ONLY[f - 5] },
+            interp: if lin && f < 5 { Interp::Linear } else { Interp::Floor },
             src_len,
             ctor,
             params: ps.iter().map(|x| x.to_bits()).collect(),
@@ -585,7 +608,7 @@ pub fn case_strategy(max_out: u64) -> impl Strategy<Value = Case> {
 
 pub fn run(ctx: &mut Ctx) {
     ctx.set_rule(
-        "cases are (frame type out of f64, [f32;2], i16, [i32;2], u8; floor|linear; source length 1..60 or infinite; one of 9 ways of setting the ratio incl. mul_hz and the per-frame setters; \
+        "cases are (frame type out of f64, [f32;2], i16, [i32;2], u8, and with the floor interpolator only i64 and [u64;2] with more than 53 significant bits; floor|linear; source length 1..60 or infinite; one of 9 ways of setting the ratio incl. mul_hz and the per-frame setters; \
          1..5 ratio parameters; number of outputs up to 300; step or drain to exhaustion); exact regime: parameters k/2^m (m <= 10, ratio in (0,16]) and grid-valued frames so every intermediate is exactly representable and \
          comparison is ==; general regime: arbitrary ratios in [1e-3, 1e3] (incl. 0.1, 1/3, 44100/48000, e) with a derived tolerance; non-trivial: ratio not 1 and not 0.5, or varying ratio, or integer format, or the run reaches exhaustion",
     );
@@ -630,6 +653,20 @@ pub fn run(ctx: &mut Ctx) {
     }
     let n = cases.len() as u64;
     ctx.par_enumerate("hz-pair-exact-quotients", true, n, move |i| cases[i as usize].clone(), check);
+
+    // ratios far above 1 (a thousand and more source frames per output frame), exact regime
+    let mut cases = Vec::new();
+    for p in [1000.0f64, 1024.0, 1025.0, 1500.0, 2048.25, 4097.5, 65536.0, 100000.75] {
+        for ctor in [Ctor::ScalePlayback, Ctor::MulHz, Ctor::SetPlayback, Ctor::FromHzToHz] {
+            for (ft, lin) in [(FT::F64, true), (FT::I16, false), (FT::I32x2, true), (FT::I64, false), (FT::U64x2, false)] {
+                for src_len in [None, Some(10_000u64)] {
+                    cases.push(Case { ft, interp: if lin { Interp::Linear } else { Interp::Floor }, src_len, ctor, params: vec![p.to_bits()], outputs: 5, exact: true, drain: false, hz_base: 1024 });
+                }
+            }
+        }
+    }
+    let n = cases.len() as u64;
+    ctx.par_enumerate("ratios-above-1000", true, n, move |i| cases[i as usize].clone(), check);
 
     // drift: long runs (general regime), infinite source
     let long: u64 = ctx.pick(20_000, 1_000_000);
